@@ -360,6 +360,7 @@ def bang (s : Str) : Str := s ++ ['!']
 def mapBangEv (all : Bool) : MItem → MItem
   | (some m, .ev (.text t f)) => (some m, .ev (.text (bang t) f))
   | (some m, .ev (.comment t)) => if all then (some m, .ev (.comment (bang t))) else (some m, .ev (.comment t))
+  | (some m, .ev (.endNs p)) => if all then (some m, .ev (.endNs (bang p))) else (some m, .ev (.endNs p))   -- END_NS data is the prefix, a plain string
   | p => p
 
 def mapBang (all : Bool) (s : MStream) : MStream := s.map (mapBangEv all)
